@@ -42,7 +42,7 @@ type PoolConfig struct {
 // PoolStats counts what the pools did in the current run.
 type PoolStats struct {
 	Gets, Puts, News, Recycled, RandomPick, FIFOPick, Dropped int
-	ForeignTaken, ForeignReturned, DoublePut, PutNonEmpty    int
+	ForeignTaken, ForeignReturned, DoublePut, PutNonEmpty     int
 }
 
 type item struct {
